@@ -66,6 +66,13 @@ func (c *Ctx) Shipped() *database.Database {
 	return c.shipped
 }
 
+// Dict is the dictionary of string constants of the tree under test.
+func (c *Ctx) Dict() *vlib.Dict { return vlib.SourceDict(c.Repo) }
+
+// G turns a per-shard case index into a run-wide one (classes selected by
+// modulo must use it, see ENGINE_GUIDE).
+func (c *Ctx) G(i int) int { return i*c.NShards + c.Shard }
+
 var engines = map[string]func(*Ctx){}
 
 func main() {
